@@ -119,6 +119,7 @@ def span_case(rng):
     # content must neither start nor end with a backtick, nor contain a run of exactly n backticks
     x = (x.strip("`").rstrip("\n").replace("\n`", "\n'")) or "q"
     x = x.strip("`") or "q"
+    x = re.sub(r"\n[ \t]*(?=\n)", "", x)     # no blank line inside a span (it would end the paragraph)
     if n >= 3:
         x = x.replace("\n", " ")     # a line starting (after <= 3 spaces) with a run of 3+ backticks would open a fenced block
     if re.search(r"(?<!`)`{%d}(?!`)" % n, x):
